@@ -485,6 +485,19 @@ def scenario(ctx, template, depth):
                 got1.append(s1.next())
         except m['stm'].StopStream:
             pass
+        # embedded in place: what follows the pattern in a sequence receives the input value of its own step
+        echo = None
+        if len(want) < CAP - 1:
+            s3 = m['lsp'].Pseq([pat, m['fnp'].Pfuncn(lambda inval: inval, 1)], 1).__stream__()
+            try:
+                for i in range(len(want) + 1):
+                    echo = s3.next(1000 + i)
+            except m['stm'].StopStream:
+                echo = 'ended'
+            if symx.is_sym(echo) or echo != 1000 + len(want):
+                raise Violation(f'{render(node)} embedded in a sequence and followed by an element that reads its input '
+                                f'value: that element received {echo!r}, the input value of its step is '
+                                f'{1000 + len(want)}', None, data('inval'))
         after = {k: (list(v) if isinstance(v, list) else v) for k, v in vars(pat).items()}
     for name, got in (('second stream', got2), ('first stream (consumed around the second)', got1)):
         if len(got) != len(want):
@@ -627,6 +640,17 @@ def _replay_scenario(ctx, template, depth):
         pass
     if len(b) != len(want) or not all(close(g, w) for g, w in zip(b, want)):
         raise Violation(f'a second stream of the same pattern yields {b}, expected {want}', None, None)
+    if len(want) < CAP - 1:
+        s3 = m['lsp'].Pseq([pat, m['fnp'].Pfuncn(lambda inval: inval, 1)], 1).__stream__()
+        echo = None
+        try:
+            for i in range(len(want) + 1):
+                echo = s3.next(1000 + i)
+        except m['stm'].StopStream:
+            echo = 'ended'
+        if echo != 1000 + len(want):
+            raise Violation(f'embedded in a sequence and followed by an element that reads its input value: that element '
+                            f'received {echo!r}, the input value of its step is {1000 + len(want)}', None, None)
 
 
 # ------------------------------------------------------------------ main
